@@ -302,7 +302,7 @@ CAL_RULE = ("block-hash correspondence: for each of the 9 calendar configuration
 class _C01(CalSpec):
     pid = "C01"
     lean_module = "Starcal.Props.C01"
-    src_ties = ["Starcal.SrcTie.Cal"]
+    src_ties = ["Starcal.SrcTie.Cal", "Starcal.SrcTie.HijriTable"]
     src_overflow = ["Starcal.SrcTie.NoOverflow"]
     kinds = ("jd", "ym")
     expected = "ToJd(JdTo(jd)) = jd for every day number, JdTo(ToJd(d)) = d for every well-formed date, all 9 configurations"
@@ -315,7 +315,7 @@ register(_C01())
 class _C02(CalSpec):
     pid = "C02"
     lean_module = "Starcal.Props.C02"
-    src_ties = ["Starcal.SrcTie.Cal"]
+    src_ties = ["Starcal.SrcTie.Cal", "Starcal.SrcTie.HijriTable"]
     src_overflow = ["Starcal.SrcTie.NoOverflow"]
     kinds = ("jd",)
     expected = "JdTo(jd+1) is the calendar successor of JdTo(jd) under the library's GetMonthLen; every produced date is well-formed"
@@ -328,7 +328,7 @@ register(_C02())
 class _C03(CalSpec):
     pid = "C03"
     lean_module = "Starcal.Props.C03"
-    src_ties = ["Starcal.SrcTie.Cal2"]
+    src_ties = ["Starcal.SrcTie.Cal2", "Starcal.SrcTie.HijriTable"]
     kinds = ("jd", "ym")
     expected = "JdTo(jd) equals the date counted from the published anchor with the published leap rule and month lengths (table lengths inside the hijri table window)"
     rule = CAL_RULE
